@@ -279,15 +279,19 @@ def permutations_of(case, limit=720):
 
 
 def big_exclusion_case(r, n, shape, pad=0):
-    """an exclusion FILE of n names; shape: 'unrelated' (ranged form ~ 8 bytes per name), 'run' (one range)"""
+    """an exclusion FILE of n names; shape: 'unrelated' (ranged form ~ 8 bytes per name), 'run' (one range),
+    'sparse' (one prefix, odd numbers)"""
     if shape == "unrelated":
         xs = [b"h%05dx" % (7 * i) for i in range(n)]
         if n and pad:
             xs[-1] = b"h" + b"9" * (5 + pad) + b"x"
+    elif shape == "sparse":
+        # one prefix, numbers that never adjoin: the ranged form of the whole file is one long bracket list
+        xs = [b"h%d" % (2 * i + 1) for i in range(n)]
     else:
         xs = [b"foo%d" % i for i in range(1, n + 1)]
     lines = [[("plain", x)] for x in xs]
-    keep = [b"a1", b"h00003x", b"foo0"]
+    keep = [b"a1", b"h00003x", b"foo0"] if shape != "sparse" else [b"a1", b"h2", b"h%d" % (2 * n)]
     hit = [xs[i] for i in sorted({0, len(xs) // 2, len(xs) - 1})] if xs else []
     tw = [("hosts", [("plain", x)]) for x in keep[:1] + hit + keep[1:] + hit[:1]]
     case = {"files": {"big": lines}, "opts": []}
